@@ -10,7 +10,7 @@ from ..refmodel import Invalid, ev
 PID = 'C20'
 RULE = ('Hypothesis: C01 programs (single- and multi-input stages, raising maps + catch, thread prefetch with 1 and '
         '2-3 workers, items) with an identity spy map inserted after every stage, wrapped in ProfilingDataset and '
-        'iterated fully or partially (k drawn) or indexed. Oracle: (1) iteration / length / indexing / errors of '
+        'iterated fully or partially (k drawn), by two alternately advanced iterators over the one wrapper, or indexed. Oracle: (1) iteration / length / indexing / errors of '
         'the wrapper equal the reference of the unwrapped program; (2) a structural snapshot of the wrapped pipeline '
         '(object ids, attributes, index arrays) is unchanged by wrapping and by using the wrapper, and no stage '
         'object is shared between the two trees; (3) for every profiling node, hit_count[0]-hit_count[1] equals the '
@@ -117,6 +117,32 @@ def check(case):
             ln = None
         if m.sized and ln != m.n:
             raise Violation(f'wrapped-len|{tag}', f'{desc}\nlen(wrapper) == {ln}, expected {m.n}')
+    elif case['mode'] == 'dual':
+        # two iterators over the ONE wrapper object, advanced alternately (zip(w, w), or a pass started while another
+        # is suspended): each delivers what the wrapped pipeline delivers, the counters see both
+        its = [iter(W), iter(W)]
+        gots = [[], []]
+        live = [True, True]
+        for _ in range(m.n + 2):
+            for j in (0, 1):
+                if live[j]:
+                    try:
+                        gots[j].append(next(its[j]))
+                    except StopIteration:
+                        live[j] = False
+                    except observe.PASS_THROUGH:
+                        raise
+                    except BaseException as e:
+                        raise Violation(f'wrapped-iter-raised|{tag}', f'{desc}\niterator {j} of two raised '
+                                                                      f'{observe.describe_exc(e)} after {gots[j]}')
+        for it in its:
+            it.close()
+        want, _ = observe.expected_stream(m.vals)
+        for j in (0, 1):
+            if live[j] or not observe.same_list(gots[j], want):
+                raise Violation(f'wrapped-iter-values|{tag}', f'{desc}\niterator {j} of two alternately advanced '
+                                                              f'iterators delivered {gots[j]}\nexpected {want}')
+        fetched, failed_root = len(gots[0]) + len(gots[1]), 0
     elif case['mode'] == 'partial':
         k = case['k']
         it = iter(W)
@@ -249,7 +275,12 @@ def st_case(draw):
             node = node['in']
         return {'ast': node, 'mode': draw(st.sampled_from(['full', 'partial'])), 'k': draw(st.integers(0, 3))}
     node = draw(gen.st_program(gen.Ctx(), allowed, max_stages=5))
-    mode = draw(st.sampled_from(['full', 'full', 'partial', 'index']))
+    mode = draw(st.sampled_from(['full', 'full', 'partial', 'index', 'dual']))
+    if mode == 'dual':
+        mm = ev(node)
+        if mm.has_raise or mm.unordered or mm.iter_taint or not mm.sized or any(
+                n['op'] in ('prefetch', 'parmap') for n in progs.walk(node)):
+            mode = 'full'
     case = {'ast': node, 'mode': mode}
     if mode == 'partial':
         case['k'] = draw(st.integers(0, ev(node).n + 1))
@@ -265,7 +296,7 @@ def run_shard(tier, idx, nshards, rec, known):
         node = case['ast']
         m = ev(node)
         ops = set(progs.ops(node))
-        nt = bool(done) and progs.size(node) >= 3 and (bool(ops & set(progs.NARY)) or case['mode'] == 'partial'
+        nt = bool(done) and progs.size(node) >= 3 and (bool(ops & set(progs.NARY)) or case['mode'] in ('partial', 'dual')
                                                       or m.has_raise or 'catch' in ops)
         cls = progcheck.classes_of(node, m) | {'mode:' + case['mode']}
         rec.case({'program': progs.show(node), 'mode': case['mode'], 'k': case.get('k'), 'ast': node,
